@@ -62,6 +62,17 @@ def load_known_findings():
         return json.load(f)
 
 
+def clear_replays(prop):
+    """replay files of earlier runs of this property's check (a run writes the ones that apply to it)"""
+    import glob
+
+    for f in glob.glob(os.path.join(REPLAY, f"{prop}_*.json")):
+        try:
+            os.unlink(f)
+        except OSError:
+            pass
+
+
 def write_replay(prop, name, payload):
     os.makedirs(REPLAY, exist_ok=True)
     path = os.path.join(REPLAY, f"{prop}_{name}.json")
